@@ -129,6 +129,8 @@ def build(cfg, obj, g2p, callback, rng_init):
         elif cfg["init"]:
             wide = 12 if rng_init.random() < 0.4 else 8        # sometimes a warm start from a wider box than [-2, 2]
             init = np.array([[rng_init.randint(-wide, wide) / 4 for _ in range(cfg["dim"])] for _ in range(cfg["pop"])], dtype=np.float64)
+            if rng_init.random() < 0.2:
+                init[:] = init[0]                               # a replicated start: every donor is the common point, every trial equals its target
         kw = dict(left_border=-2.0, right_border=2.0, num_variables=cfg["dim"], init_population=init)
         if kind != "SHADE":
             kw["mutation"] = cfg.get("strategy", "rand_1")
